@@ -2,7 +2,8 @@
    Only statements; every proof is `exact <lemma from Proofs/>`.  The candidate list is the usable
    list of C15 (cache); the policies pick an index into it. *)
 From Coq Require Import List Arith NArith Bool Permutation.
-From Sam Require Import Model.HostSet Proofs.HostSetProofs.
+From Coq Require Import ZArith.
+From Sam Require Import Model.HostSet Proofs.HostSetProofs Model.Stats Proofs.StatsProofs.
 Import ListNotations.
 Open Scope N_scope.
 
@@ -50,3 +51,11 @@ Theorem C06_replaced_closed : forall desc U s i old, all s (o_addr desc i) = Som
   removed (add desc U s [i]) old = true.
 Proof. exact removed_after_readd. Qed.
 Print Assumptions C06_replaced_closed.
+
+(* the per-host connection count that least-connection reads: a relay is counted once its dial has succeeded and
+   until it ends, so after any history the count is the number of relays in progress - never negative, zero when
+   none is left (Model/Stats.v with one counter state per host object: SvConnect = dial succeeded, SvFinish = relay over) *)
+Theorem C06_conn_count : forall l, let s := Sam.Model.Stats.srun 0 l in
+  (Sam.Model.Stats.cx_active s = Sam.Model.Stats.open_conns s /\ 0 <= Sam.Model.Stats.open_conns s)%Z.
+Proof. exact host_count. Qed.
+Print Assumptions C06_conn_count.
